@@ -232,6 +232,7 @@ func c16Client(c *Ctx) {
 	if initFault == "rpc-error" {
 		// a server that answers initialize with a JSON-RPC error: the library's own server does so for bad params;
 		// the client is made to send an empty protocolVersion... it cannot; use a scripted host instead
+		s.Net.NoWriterContract = true // the server is a harness script
 		s.Net.Serve("srv", scriptedErrorServer(mode))
 	}
 	if cl.Link != nil {
